@@ -131,6 +131,7 @@ func (ru *run) phaseC() {
 	var sched []delivery
 	faults := 0
 	maxFaults := 8
+	stormDone := false
 	head := ru.gen // the block the nodes will have as head at this point of the schedule (if every valid delivery is accepted)
 	for _, vb := range ru.all {
 		if !vb.valid || !vb.accepted {
@@ -164,6 +165,30 @@ func (ru *run) phaseC() {
 					if inv2 := ru.mutate(vb); inv2 != nil {
 						sched = append(sched, delivery{kind: "invalid", blk: inv2, mut: inv2.mut})
 					}
+				}
+				// a STORM of refused imports on one head: more of them than any retention window of the node holds
+				// (a peer that keeps sending bad blocks must not push the head, or the fork points behind it, out of the node)
+				if !stormDone && t.Prob(1, 8, "storm_of_refused_imports") {
+					stormDone = true
+					n := 22 + t.Choose(12, "storm_size")
+					var pool []*chainBlock
+					pool = append(pool, inv)
+					for k := 0; k < 2; k++ {
+						if x := ru.mutate(vb); x != nil {
+							pool = append(pool, x)
+						}
+					}
+					seenInStorm := map[*chainBlock]bool{inv: true} // inv was delivered (and judged by the oracle) above
+					for k := 0; k < n; k++ {
+						x := pool[k%len(pool)]
+						kind := "retry"
+						if !seenInStorm[x] {
+							kind = "invalid" // first delivery: the oracle decides whether a clean node refuses it at all
+							seenInStorm[x] = true
+						}
+						sched = append(sched, delivery{kind: kind, blk: x, mut: x.mut})
+					}
+					r.Count("fault:storm_of_refused_imports_on_one_head", 1)
 				}
 			case 1:
 				sched = append(sched, delivery{kind: "restart", withA: t.Bool("with_ancestry"), perm: t.Perm(64, "restart_perm")})
